@@ -40,6 +40,12 @@ def _guard_in(P, f, scc_names):
         then = n["c"][1]
         if then is None or not any(x["k"] == "ReturnStmt" for x in walk(then)):
             continue
+        # at the limit the function must stop descending: a limit branch that hands the subtree to another recursive
+        # walker is no guard
+        if not hasattr(P, "_rec_names"):
+            P._rec_names = {c[1] for comp in P.sccs() for c in comp}
+        if any(x["k"] == "CallExpr" and x.get("callee") in P._rec_names and P.resolve(f, x["callee"]) is not None for x in walk(then)):
+            continue
         # the test must dominate every SCC call
         cid = n["c"][0]["i"]
         if not all(f.cfg.dominates(cid, c["i"]) or f.cfg.dominates(cond["i"], c["i"]) for c in calls):
